@@ -18,33 +18,33 @@ claims = {
    text="For all lengths below 10^9-60: toOriginLength(n) == olen(n), fromOriginLength(olen(n)) == n, olen strictly monotone; NewOrigin writes exactly the layout (index columns, space before each group of ten, residues, newline) and Origin.Bytes reads exactly the residues back (nested loop invariants over hidden layout classes and separately proved position lemmas); Len without decoding equals the residue count; the round trip NewOrigin;Bytes is the identity (ghost lemma function); the fast validator accepts a block of the right length iff every byte is in place (both directions), the line-by-line reader returns only layout blocks, and the ORIGIN field reader accepts only a block of the declared length.",
    note=TB+" fmt.Sprintf(\"%9d\") is an assumed external contract (9 right-aligned columns for 0 <= v < 10^9, digits uninterpreted); nres is the specification inverse of olen (axiom justified by the monotonicity lemma); completeness of the slow path and Origin.String are not under contract.", design='4/C16'),
  'C05': dict(
-   text="Leaf Reverse contracts (Point, Ranged, Ambiguous, Between): residue x is covered before iff L-1-x is covered after, partial flags swap; Segment.Complement; replaceBytes. Between.Reverse is a recorded known finding (off by one, pinned by a test).",
-   note=TB+" Composite (Joined/Ordered/Complemented) Reverse and the sequence-level Reverse are not yet under contract.", design='4/C05'),
+   text="Leaf Reverse contracts (Point, Ranged, Ambiguous, Between): residue x is covered before iff L-1-x is covered after, partial flags swap; Segment.Complement; replaceBytes. Between.Reverse is a recorded known finding (off by one, pinned by a test). Wiring of the sequence-level Reverse: every feature gets Reverse(L) exactly once.",
+   note=TB+" Composite (Joined/Ordered/Complemented) Reverse and the sequence-level Reverse are not yet under contract. Location values are identified by an uninterpreted value function valOf; every Location method is assumed to be a deterministic function of the receiver's value and its arguments, and locations are assumed not to be modified after they are returned.", design='4/C05'),
  'C04': dict(
-   text="Leaf Normalize contracts (Point, Between, Ranged incl. the origin-spanning split with partial flags on the outer ends and the full-length case, Ambiguous when not crossing the origin), proved for all L >= 1 and all coordinates.",
-   note=TB+" Join's two-range case is assumed; Rotate itself and composite Normalize are not yet under contract.", design='4/C04'),
+   text="Leaf Normalize contracts (Point, Between, Ranged incl. the origin-spanning split with partial flags on the outer ends and the full-length case, Ambiguous when not crossing the origin), proved for all L >= 1 and all coordinates. Wiring of Rotate: every feature gets Expand(0, n mod L) and then Normalize(L), exactly once, key and qualifiers kept (ghost position map through the sorted insertions).",
+   note=TB+" Join's two-range case is assumed; Rotate itself and composite Normalize are not yet under contract. Location values are identified by an uninterpreted value function valOf; every Location method is assumed to be a deterministic function of the receiver's value and its arguments, and locations are assumed not to be modified after they are returned.", design='4/C04'),
  'C08': dict(
    text="Modifier.Apply for all five forms proved exactly on both strands (incl. mirroring law and termination of the sign-flip recursion); Segment.Resize exact; Regions.Resize on regions of segments proved with a ghost prefix-sum function: each offset lands in the segment L with pre(L) < v <= pre(L+1) (first/last segment when outside), the end pieces are the exact partial segments and the pieces between are kept whole, for every number of segments and every modifier form (this exposed and repaired the >= 3 segment defect); Segment Len/Head/Tail/Complement, Abs, Compare, Unpack, Max.",
    note=TB+" Regions containing nested Regions are outside the contract; the locator constructors and the modifier text round trip are not decided; the step from the exact piece structure to 'equals the slice of the spliced sequence' is the denotational reading stated in DESIGN.md, not a separate obligation.", design='4/C08'),
  'C02': dict(
-   text="Exact pointwise contracts for Shift/Expand (n >= 0) of Between, Point, Ranged, Ambiguous: covered set is the image under the insertion map, a spanning range splits into exactly two parts with partial flags on the outer ends (Shift) or extends over the guest (Expand); all i, n, coordinates.",
-   note=TB+" Join/Order two-part cases assumed; composite locations and the sequence-level Insert/Embed not yet under contract.", design='4/C02'),
+   text="Exact pointwise contracts for Shift/Expand (n >= 0) of Between, Point, Ranged, Ambiguous: covered set is the image under the insertion map, a spanning range splits into exactly two parts with partial flags on the outer ends (Shift) or extends over the guest (Expand); all i, n, coordinates. Wiring of Insert and Embed: every host feature gets Shift(index, len guest) (Insert) or Expand(index, len guest) (Embed), every guest feature Expand(0, index), each exactly once with key and qualifiers kept (ghost position maps through the sorted insertions).",
+   note=TB+" Join/Order two-part cases assumed; composite locations and the sequence-level Insert/Embed not yet under contract. Location values are identified by an uninterpreted value function valOf; every Location method is assumed to be a deterministic function of the receiver's value and its arguments, and locations are assumed not to be modified after they are returned.", design='4/C02'),
  'C03': dict(
-   text="Exact pointwise contracts for Expand with n < 0 (deletion) of Point, Ranged, Ambiguous, Between: survivors are exactly the images, partial flags set exactly when an end residue was cut, an emptied location becomes the site at the cut; rangeWithin/rangeOverlap.",
-   note=TB+" Composite locations, Delete/Erase/Slice and GenBankFields.Slice not yet under contract.", design='4/C03'),
+   text="Exact pointwise contracts for Expand with n < 0 (deletion) of Point, Ranged, Ambiguous, Between: survivors are exactly the images, partial flags set exactly when an end residue was cut, an emptied location becomes the site at the cut; rangeWithin/rangeOverlap. Wiring of Delete (every feature gets Expand(offset, -length), same order) and of Slice (every surviving non-source feature gets Expand(end, end-L) then Expand(0, -start)).",
+   note=TB+" Composite locations, Delete/Erase/Slice and GenBankFields.Slice not yet under contract. Location values are identified by an uninterpreted value function valOf; every Location method is assumed to be a deterministic function of the receiver's value and its arguments, and locations are assumed not to be modified after they are returned.", design='4/C03'),
 }
 claims.update({
  'C06': dict(
    text="Join reduction: the merge table of LocationList.Push (one leaf pushed onto a one-node list) is proved to preserve the set and order of residues and the outer partial markers, to merge two ranges exactly when they abut (forced, or 3'-partial meeting 5'-partial); Join of exactly two leaf parts is proved from the real loop (unrolled, with unwinding assertion) over that contract. The pinned defect Join(4..6,7) = 4..6 is a recorded known finding.",
    note=TB+" Join over three or more parts and Order (recursive flattening) are assumed; the print/parse half of the property is not decided by this check.", design='4/C06'),
  'C10': dict(
-   text="Inverse laws as ghost lemma functions verified over the callee contracts: Delete(Insert(h,i,g),i,len g) and Delete(Embed(...)) restore the host residues pointwise; Concat(Slice(s,0,c),Slice(s,c,L)) restores the residues; x.Shift(i,n).Expand(i,-n) == x for Point and Ranged at every alignment incl. the spanning case, where the split join is proved to re-merge (Joined.Expand@two + Join@two); x.Expand(i,n).Expand(i,-n) == x for Ranged.",
+   text="Inverse laws as ghost lemma functions verified over the callee contracts: Delete(Insert(h,i,g),i,len g) and Delete(Embed(...)) restore the host residues pointwise; Concat(Slice(s,0,c),Slice(s,c,L)) restores the residues; x.Shift(i,n).Expand(i,-n) == x for Point and Ranged at every alignment incl. the spanning case, where the split join is proved to re-merge (Joined.Expand@two + Join@two); x.Expand(i,n).Expand(i,-n) == x for Ranged. Concat of any number of pieces shifts the features of each later piece by exactly the number of residues assembled so far (call-site obligation).",
    note=TB+" Features of composite shape (joins of 3+ parts, orders, complements) and cut sets with more than one cut are not covered; interface-level Location contracts assume purity only.", design='4/C10'),
  'C11': dict(
-   text="Frame obligations ('assigns nothing': every byte/feature/location cell allocated before the call reads the same afterwards, including spare capacity) proved for Insert, Embed, Delete, Erase, Rotate, Reverse, Complement, Transcribe, Concat, WithInfo/WithFeatures/WithBytes/WithTopology, FeatureSlice.Insert/Filter, Props.Clone, replaceBytes, insert, NewOrigin and the leaf location methods, with arguments allowed to share backing arrays and to have cap > len; Slice is proved to write only location part lists; Origin.Bytes writes only its own fields. Five aliasing defects were found and repaired (insert, FeatureSlice.Insert, Delete, Rotate, Concat).",
+   text="Frame obligations ('assigns nothing': every byte/feature/location cell allocated before the call reads the same afterwards, including spare capacity) proved for Insert, Embed, Delete, Erase, Rotate, Reverse, Complement, Transcribe, Concat, WithInfo/WithFeatures/WithBytes/WithTopology, FeatureSlice.Insert/Filter, Props.Clone, replaceBytes, insert, NewOrigin and the leaf location methods, with arguments allowed to share backing arrays and to have cap > len; Slice is proved to write only location part lists; Origin.Bytes writes only its own fields. Five aliasing defects were found and repaired (insert, FeatureSlice.Insert, Delete, Rotate, Concat). Ordered.Shift/Expand/Normalize over leaf parts are proved to write nothing and to return an order that owns a fresh part list.",
    note=TB+" Sequence implementations are seen through assumed pure accessors (Info/Features/Bytes); asComplete and the composite Location methods are assumed to write only fresh part lists; Repair not covered.", design='4/C11'),
  'C18': dict(
-   text="Match: per-letter class obligations and literal quoting; Search: sound, complete, ascending. Complement and Transcribe proved against an independent IUPAC base-set specification for every byte value (symbolic byte, tables read from the real string literals), same case, non-alphabet bytes unchanged, Complement never produces U and Transcribe writes U for A; replaceBytes exact. BySegment order lemmas.",
+   text="Match: per-letter class obligations and literal quoting; Search: sound, complete, ascending. Complement and Transcribe proved against an independent IUPAC base-set specification for every byte value (symbolic byte, tables read from the real string literals), same case, non-alphabet bytes unchanged, Complement never produces U and Transcribe writes U for A; replaceBytes exact. BySegment order lemmas. bytesIndexAll is proved from an external contract of index/suffixarray (New/Lookup) instead of being trusted itself.",
    note=TB+" bytes.IndexByte, bytes.ToLower, sort.Sort, the suffix-array lookup (bytesIndexAll) and the regexp engine are assumed external contracts; Match is decided at the level of the class emitted per query letter (obligation at each WriteString call site: the class is exactly the letters whose base set is contained in the query's) and of quoting non-alphabet bytes, Search as exactly the case-insensitive occurrence set in ascending order (ghost completeness witness). The k row of Match is a recorded known finding.", design='4/C18'),
  'C19': dict(
    text="FeatureSlice.Filter returns exactly the accepted features, in order, unaltered (ghost index maps: sound, ordered, complete); FeatureSlice.Insert returns the input plus the new feature at one position, sources first, locally ordered w.r.t. the location order (from sort.Search's unconditional guarantee); rangeCompare/rangeWithin/rangeOverlap exact.",
